@@ -13,9 +13,12 @@ package local
 //@ iface stager.Initialize
 //@   params self
 //@   pure
+// (what the most recent Contains call was asked and answered is recorded in
+// ghost state declared in zz_contracts_staging_verif.go, property C10)
 //@ iface stager.Contains
 //@   params self, path, digest
-//@   pure
+//@   modifies stagedok, stagedpath, stagedbase, stagedoff, stagedlen
+//@   ensures stagedok == result0 && stagedpath == path && stagedbase == base(digest) && stagedoff == off(digest) && stagedlen == len(digest)
 //@ iface stager.Finalize
 //@   params self
 //@   pure
